@@ -28,8 +28,8 @@ def EntryK (id : Id) (e : Entry Hsh) : Prop := ∃ c, K id c ∧ offered c ∧ e
 
 /-- every index file is empty or the whole entry of a content known to have been stored for that id. -/
 def IndexK (fs : FS Id Hsh) : Prop :=
-  ∀ id i nd, fs.names (.index id) = some i → fs.inodes i = some nd →
-    nd.data = [] ∨ ∃ c t, K id c ∧ offered c ∧ nd.data = P.enc id (P.H c) c.length t
+  ∀ id d, fs.content (.index id) = some d →
+    d = [] ∨ ∃ c t, K id c ∧ offered c ∧ d = P.enc id (P.H c) c.length t
 
 def LocalG (id : Id) (fs : FS Id Hsh) : PC Hsh → Prop
   | .gOpen => True
@@ -172,7 +172,7 @@ theorem get_cstep (hy : Hyps P offered) {op : Op Id} {pc : PC Hsh} (hop : op.isG
     rw [h1] at g1; cases g1
     rw [h4] at g2; cases g2
     -- the index file is empty or one whole entry
-    have hdata := hig _ _ _ h2 h4
+    have hdata := hig op.id nd.data (by simp [FS.content, FS.file?, h2, h4])
     rcases hcase with ⟨rfl, rfl, hnil⟩ | ⟨bs, rfl, hbne, hbs, rfl⟩
     · -- end of file
       rcases h3 with ⟨rfl, hoff0⟩ | ⟨hoff, c, t, k1, k2, rfl⟩
